@@ -147,7 +147,9 @@ def pvl_flavor(
         try:
             pvl.dumps(some_pvl, **decenc)
             encodes = True
-        except (LexerError, ParseError, ValueError) as err:
+        except Exception as err:
+            # Whatever the encoder raises (ValueError and TypeError are
+            # its documented refusals), the text did load.
             logging.error(f"{dialect} encode error {filename} {err}")
             encodes = False
     except (LexerError, ParseError) as err:
